@@ -88,15 +88,31 @@ def _fault_op(rng, sids):
         return [("subraise", rng.choice(["conn", "msg"]), 1)]
     if r < 0.90:
         return [("reset",)]
-    if r < 0.95:
+    if r < 0.93:
         return [("turn", rng.randint(1, 4))]
-    return [("adv", rng.choice([1, 2, 8, 15, 16, 17, 40, 240]))]
+    if r < 0.96:
+        return [("adv", rng.choice([1, 2, 8, 15, 16, 17, 40, 240]))]
+    # like the API objects: the connection subscriber sends from inside the "connected" notification of the NEXT
+    # connection, whose first write may fail at once (the peer is already gone); then something forces a reconnect
+    ops = [("subsend", sids.next(), rng.choice(["ok", "ok"] + BAD), rng.choice(POL))]
+    if rng.random() < 0.6:
+        ops.append(("failfirst", 1))
+    ops.append(rng.choice([("reset",), ("peer", "eof"), ("peer", "reset"), ("peer", "badcrc")]))
+    if rng.random() < 0.5:
+        ops += [("turn", rng.randint(1, 6)), ("failfirst", 0)]
+    return ops
 
 
 def faults(rng, depth=None, sids=None, heal=True):
     sids = sids or SidGen()
-    s = [("net", rng.choice(["accept", "accept", "refuse"])), ("lat", rng.choice([0, 0, 1, 2])), ("open",),
-         ("adv", rng.choice([0, 1, 8, 17]))]
+    s = [("net", rng.choice(["accept", "accept", "refuse"])), ("lat", rng.choice([0, 0, 1, 2]))]
+    if rng.random() < 0.15:
+        s.append(("subsend", sids.next(), "ok", rng.choice(POL)))
+        if rng.random() < 0.6:
+            s.append(("failfirst", 1))
+    s += [("open",), ("adv", rng.choice([0, 1, 8, 17]))]
+    if s[-3][0] == "failfirst" and rng.random() < 0.7:
+        s.append(("failfirst", 0))
     depth = depth or rng.randint(1, 6)
     for _ in range(depth):
         s += _fault_op(rng, sids)
